@@ -172,6 +172,14 @@ Section Hash.
     | Cte n p ch => derive n p (map (eval uid db) ch)
     end.
 
+  (* tables an SQL text reads directly *)
+  Fixpoint direct_refs (uid : nat) (t : sqlt) : list pname :=
+    match t with
+    | Leaf l => [PL l]
+    | Mat t' => [PH (name_of t') (hash t' uid)]
+    | Cte _ _ ch => flat_map (direct_refs uid) ch
+    end.
+
   (* what the SQL text means under the current registered data: every materialised
      reference stands for the recomputation of the pipeline that created it *)
   Fixpoint denote (db : db_t) (t : sqlt) : prov :=
@@ -259,20 +267,30 @@ Section Hash.
     | n :: r => debug_ctes (create_table s (named n) (PDerived n 0 [])) r
     end.
 
+  (* DROP TABLE IF EXISTS physical; CREATE TABLE physical AS sql; cache[physical] = frame *)
+  Definition exec_run (s : state) (templ : string) (tree : sqlt) : state * handle * list event :=
+    let ph := PH templ (hash tree (st_uid s)) in
+    if forallb (amem (st_db s)) (direct_refs (st_uid s) tree) then
+      let h := {| h_templ := templ; h_phys := ph; h_src := Mat tree; h_cbs := true |} in
+      let s1 := create_table s ph (eval (st_uid s) (st_db s) tree) in
+      (set_cache s1 (aset (st_cache s1) ph h), h, [Exec templ])
+    else
+      (* the engine raises: a table the SQL reads does not exist *)
+      (s, {| h_templ := templ; h_phys := ph; h_src := Mat tree; h_cbs := false |}, [Refused templ]).
+
+  Definition exec_debug (s : state) (templ : string) (tree : sqlt) (aliases mids : list string)
+    : state * handle * list event :=
+    let s1 := debug_ctes s (aliases ++ mids) in
+    let s2 := create_table s1 (named templ) (eval (st_uid s) (st_db s1) tree) in
+    (set_cache s2 [],
+     {| h_templ := templ; h_phys := named templ; h_src := Leaf (LPlain templ); h_cbs := true |},
+     map Exec (aliases ++ mids ++ [templ])).
+
   Definition exec_pipeline (s : state) (templ : string) (tree : sqlt) (aliases mids : list string)
              (use_cache : bool) : state * handle * list event :=
-    if st_debug s then
-      let s1 := debug_ctes s (aliases ++ mids) in
-      let s2 := create_table s1 (named templ) (eval (st_uid s) (st_db s1) tree) in
-      (set_cache s2 [],
-       {| h_templ := templ; h_phys := named templ; h_src := Leaf (LPlain templ); h_cbs := true |},
-       map Exec (aliases ++ mids ++ [templ]))
+    if st_debug s then exec_debug s templ tree aliases mids
     else
       let ph := PH templ (hash tree (st_uid s)) in
-      let run :=
-        let h := {| h_templ := templ; h_phys := ph; h_src := Mat tree; h_cbs := true |} in
-        let s1 := create_table s ph (eval (st_uid s) (st_db s) tree) in
-        (set_cache s1 (aset (st_cache s1) ph h), h, [Exec templ]) in
       if use_cache then
         match aget (st_cache s) (named templ) with
         | Some h => (s, h, [Hit (h_templ h) (pbase (h_phys h))])
@@ -282,20 +300,20 @@ Section Hash.
             | None =>
                 if amem (st_db s) ph
                 then (s, {| h_templ := templ; h_phys := ph; h_src := Mat tree; h_cbs := false |}, [])
-                else run
+                else exec_run s templ tree
             end
         end
-      else run.
+      else exec_run s templ tree.
 
   (* ---------------------------------------------------------------- operand resolution *)
   Inductive iref :=
   | RReg (i : nat)                      (* a frame obtained earlier in this operation *)
-  | RInputs                             (* the linker's input tables, by physical name *)
+  | RConcatInline                       (* vertically_concatenate_sql over the input tables, as a CTE *)
+  | RBlockedInline (p : nat)            (* blocking CTE over the inline concat (blocking analysis) *)
   | RConcat                             (* vertically_concatenate.enqueue_df_concat *)
   | RTfOrInline (c : string)            (* term_frequencies.compute_all_term_frequencies_sqls *)
   | RTfIfNamed (c : string)             (* find_matches_to_new_records / compare_two_records *)
-  | RCwtfIfNamed                        (* compare_two_records *)
-  | RInline (n : string) (p : nat) (ch : list iref).
+  | RCwtfIfNamed.                       (* compare_two_records *)
 
   Definition concat_tree (s : state) : sqlt := Cte CONCAT 0 (map Leaf (st_inputs s)).
 
@@ -312,15 +330,18 @@ Section Hash.
   Definition r_handle (h : handle) (templ : string) : resolved :=
     {| r_trees := [h_src h]; r_events := [Hit templ (pbase (h_phys h))];
        r_aliases := alias_of h; r_inline := [] |}.
+  Definition r_tree (t : sqlt) (inl : list string) : resolved :=
+    {| r_trees := [t]; r_events := []; r_aliases := []; r_inline := inl |}.
 
-  Fixpoint resolve (s : state) (regs : list handle) (r : iref) : resolved :=
+  Definition resolve (s : state) (regs : list handle) (r : iref) : resolved :=
     match r with
     | RReg i =>
         match nth_error regs i with
         | Some h => {| r_trees := [h_src h]; r_events := []; r_aliases := alias_of h; r_inline := [] |}
         | None => r_nil
         end
-    | RInputs => {| r_trees := map Leaf (st_inputs s); r_events := []; r_aliases := []; r_inline := [] |}
+    | RConcatInline => r_tree (concat_tree s) [CONCAT]
+    | RBlockedInline p => r_tree (Cte BLOCKED p [concat_tree s]) [CONCAT; BLOCKED]
     | RConcat =>
         match aget (st_cache s) (named CONCAT) with
         | Some h => r_handle h CONCAT
@@ -329,14 +350,13 @@ Section Hash.
             | Some h =>
                 {| r_trees := [Cte CONCAT 0 [h_src h]]; r_events := [Hit CONCAT (pbase (h_phys h))];
                    r_aliases := [CONCAT]; r_inline := [] |}
-            | None => {| r_trees := [concat_tree s]; r_events := []; r_aliases := []; r_inline := [CONCAT] |}
+            | None => r_tree (concat_tree s) [CONCAT]
             end
         end
     | RTfOrInline c =>
         match aget (st_cache s) (named (tfname c)) with
         | Some h => r_handle h (tfname c)
-        | None => {| r_trees := [Cte (tfname c) 0 [concat_tree s]]; r_events := []; r_aliases := [];
-                     r_inline := [tfname c] |}
+        | None => r_tree (Cte (tfname c) 0 [concat_tree s]) [tfname c]
         end
     | RTfIfNamed c =>
         match aget (st_cache s) (named (tfname c)) with
@@ -348,10 +368,6 @@ Section Hash.
         | Some h => r_handle h CWTF
         | None => r_nil
         end
-    | RInline n p ch =>
-        let rs := fold_right (fun x acc => r_app (resolve s regs x) acc) r_nil ch in
-        {| r_trees := [Cte n p (r_trees rs)]; r_events := r_events rs; r_aliases := r_aliases rs;
-           r_inline := r_inline rs ++ [n] |}
     end.
 
   Definition resolve_all (s : state) (regs : list handle) (ins : list iref) : resolved :=
@@ -454,7 +470,7 @@ Section Hash.
   | SetDebug (b : bool).
 
   Definition cwtf_instr (s : state) : instr :=
-    INamedOrExec CWTF 0 (RInline CONCAT 0 [RInputs] :: map RTfOrInline (st_tfcols s)) [].
+    INamedOrExec CWTF 0 (RConcatInline :: map RTfOrInline (st_tfcols s)) [].
 
   Definition predict_prog (s : state) : list instr :=
     [ cwtf_instr s;
@@ -484,12 +500,12 @@ Section Hash.
           IExec CVV (2 + rule) [RReg 2; RReg 1] ["blocked_with_cols"] true;
           ISetParams p' ]
     | EstimatePrior rule p' =>
-        [ IExec TOTAL rule [RInline CONCAT 0 [RInputs]]
+        [ IExec TOTAL rule [RConcatInline]
                 ["__splink__count_comparisons_from_blocking_l"; "__splink__count_comparisons_from_blocking_r";
                  "__splink__block_counts"] true;
           IDrop 0;
-          IExec DFCOUNT 0 [RInline CONCAT 0 [RInputs]] [] true;
-          IExec CUM rule [RInline BLOCKED (100 + rule) [RInline CONCAT 0 [RInputs]]] [] true;
+          IExec DFCOUNT 0 [RConcatInline] [] true;
+          IExec CUM rule [RBlockedInline (100 + rule)] [] true;
           ISetParams p' ]
     | ComputeTF c => [ INamedOrExec (tfname c) 0 [RConcat] [] ]
     | RegisterTF c ver => [ IRegisterTF c ver ]
